@@ -537,7 +537,9 @@ func vPolicyFromParams() *vPolicy {
 				c := vCond{op: Operation(vParamStr(cp + ".op"))}
 				if a := vParamInt(cp + ".arg"); a < 0 {
 					c.arg = vU32(cp + ".arg")
-					vAssume(c.arg <= 5)
+					if vParamInt("anyarg") != 1 {
+						vAssume(c.arg <= 5)
+					}
 				} else {
 					c.arg = uint32(a)
 				}
